@@ -857,7 +857,7 @@ class Executor:
                         feas_t = feas_f = True
                         if self.prune_all or b in fn.in_loop:
                             feas_t = self.feasible(s, c)
-                            feas_f = self.feasible(s, bnot(c)) if feas_t else True
+                            feas_f = self.feasible(s, bnot(c))
                         if feas_t and feas_f:
                             s2 = s.fork()
                             s.assume(c)
@@ -2327,6 +2327,8 @@ def install_default_intrinsics(ex):
         c = args[0]
         if c is False:
             return None, None
+        if c is not True and not ex.feasible(st, c):
+            return None, None   # the assumption contradicts the path: this path ends here (no zombie state continues)
         st.assume(c)
         return None, st
     I['v:vAssume'] = vassume
